@@ -24,7 +24,8 @@ EXPLANATION = (
     "moment arrays into a fresh accumulator whose sample count is the sum; (R4) variance, skewness and kurtosis are the "
     "textbook functions of the sums with the divisions guarded by m2 != 0 into zero-filled outputs, so constant channels "
     "give 0 and nothing is NaN or infinite. Quick runs associativity up to the third moment; thorough adds the fourth "
-    "(5.4k-term numerator). Not decided: the magnitude of float32 accumulation error."
+    "(5.4k-term numerator). Not decided: the magnitude of float32 accumulation error. "
+    "Since F42/F50: third and higher powers of a count are taken in floating point in the merge kernel (R2), and an operand with count 0 does not take part in the merged extremes (R3)."
 )
 K = "sigpyproc.core.kernels"
 STATS = "sigpyproc.core.stats"
